@@ -82,7 +82,13 @@ def history(rng, length):
             out = 'ok'
             if q < .3:
                 w = rng.random()
-                if w < .5:
+                if w < .1:
+                    # the caller's own input iterable raises while it is being consumed
+                    op['input'] = 'gen'
+                    op['iterable_len'] = nn
+                    op['input_raises_at'] = rng.randrange(nn)
+                    op['fail'] = {'input': True}
+                elif w < .5:
                     op['fail'] = {'at': [rng.randrange(nn)], 'exc': rng.choice(['ValueError', 'Custom'])}
                 elif w < .65:
                     op['init'] = True
@@ -196,6 +202,10 @@ def run(chk):
                 break
         # a failed call must surface its own error, never a foreign one; later successful calls are checked by the C01/C02 oracles above
         for opi, (op, oo) in enumerate(zip(sc['ops'], o['ops'])):
+            if (op.get('fail') or {}).get('input') and (oo.get('outcome') != 'raise' or (oo.get('exc') or {}).get('type') != 'InputBroken') and \
+                    not ((oo.get('exc') or {}).get('type') == 'RuntimeError' and 'another' in str((oo.get('exc') or {}).get('args'))):
+                chk.violation('input_error_surfaces', {'scenario': sc}, {'op': opi, 'outcome': oo.get('outcome'), 'raised': oo.get('exc')},
+                              'an exception raised by the input iterable reaches the caller', input_class='input_error')
             if op.get('expect_rejected'):
                 if oo.get('outcome') != 'raise' or (oo.get('exc') or {}).get('type') not in ('TypeError', 'ValueError'):
                     chk.violation('invalid_arguments_rejected', {'scenario': sc}, {'op': opi, 'outcome': oo.get('outcome'), 'raised': oo.get('exc')},
